@@ -68,9 +68,10 @@ Section Pre.
     end.
   Definition pre_sels (l : list sel) : list sel := map pre_sel l.
   Definition pre_frag (f : fragment) : fragment :=
-    {| fr_name := fr_name f; fr_on := fr_on f; fr_extra := fr_extra f; fr_sel := pre_sels (fr_sel f); fr_line := fr_line f |}.
+    {| fr_name := fr_name f; fr_on := fr_on f; fr_extra := fr_extra f; fr_sel := pre_sels (fr_sel f); fr_line := fr_line f; fr_src := fr_src f |}.
   Definition pre_op (o : operation) : operation :=
-    {| op_kind := op_kind o; op_name := op_name o; op_extra := op_extra o; op_sel := pre_sels (op_sel o); op_line := op_line o |}.
+    {| op_kind := op_kind o; op_name := op_name o; op_extra := op_extra o; op_sel := pre_sels (op_sel o); op_line := op_line o;
+       op_src := op_src o; op_vars := op_vars o |}.
 End Pre.
 
 (* every selection set of an interface/union-typed field carries a direct __typename *)
